@@ -1,0 +1,53 @@
+//go:build verif
+
+package semap
+
+// Observers for the /verif simulation checks. They only read; with the verif tag off this file does
+// not exist.
+
+func verifShard(m SemMapper, key interface{}) *SemMap {
+	switch x := m.(type) {
+	case *SemMap:
+		return x
+	case *WideSemMap:
+		return x.calculateKey(key)
+	}
+	return nil
+}
+
+// VerifKeyState reports, for one key, the tokens held, the number of queued waiters and whether the
+// container has an entry for the key.
+func VerifKeyState(m SemMapper, key interface{}) (held int, waiters int, present bool) {
+	var s = verifShard(m, key)
+	if s == nil {
+		return 0, 0, false
+	}
+	var w, ok = s.m[key]
+	if !ok {
+		return 0, 0, false
+	}
+	return w.cur, w.waiters.Len(), true
+}
+
+// VerifEntries reports the number of per-key entries the container keeps.
+func VerifEntries(m SemMapper) int {
+	switch x := m.(type) {
+	case *SemMap:
+		return len(x.m)
+	case *WideSemMap:
+		var n = 0
+		for _, s := range x.ms {
+			n += len(s.m)
+		}
+		return n
+	}
+	return -1
+}
+
+// VerifShardOf reports the shard index a key is routed to (0 for the single map).
+func VerifShardOf(m SemMapper, key interface{}) int {
+	if x, ok := m.(*WideSemMap); ok {
+		return x.calKeyFn(key)
+	}
+	return 0
+}
